@@ -21,7 +21,8 @@ RULE = ("a case is a namespace tree on disk (3-12 definitions in 1-3 root direct
         "relative references at several depths and optionally a same-named definition in the namespace obtained by deleting "
         "that component / two names equal up to case in different versions referenced with all (spelling, version) combinations / a self "
         "reference or 2-/3-cycle through a definition that has a twin in a same-named second root directory / versions >= 10 and "
-        "unreferenced versions whose decimal digits concatenate like a referenced one (11.0 / 1.10)) plus read_namespace and read_files calls for several target subsets, and one read_files "
+        "unreferenced versions whose decimal digits concatenate like a referenced one (11.0 / 1.10) / one definition referring to a "
+        "type twice, exactly spelled and in another letter case, in both orders) plus read_namespace and read_files calls for several target subsets, and one read_files "
         "call per definition on its own; non-trivial = at least one call returns a type with a nested composite or fails in "
         "resolution; distinct = by hash of the canonical case")
 THEOREMS_NOTE = ("C09_resolve_exact / C09_resolve_never_other / C09_errors fix the outcome of a resolution, C09_terminates / C09_cycles / "
@@ -442,7 +443,7 @@ def all_dirs_queries(rng, roots, defs, extra_lookups=None):
 
 
 def gen_case(rng, tier, flavor=None):
-    flavor = flavor or rng.choice(["plain", "plain", "plain", "plain", "cycle", "case", "dup_root", "wrongcase", "self", "twins", "f7", "nsprefix", "nsprefix", "casever", "casever", "dupcycle", "dupcycle", "digits"])
+    flavor = flavor or rng.choice(["plain", "plain", "plain", "plain", "cycle", "case", "dup_root", "wrongcase", "self", "twins", "f7", "nsprefix", "nsprefix", "casever", "casever", "dupcycle", "dupcycle", "digits", "caserepeat"])
     opts = {"print_p": 0.15, "missing_p": 0.015, "badrel_p": 0.015, "fault_p": 0.01}
     if flavor == "cycle":
         opts["cycle_p"] = 0.25
@@ -492,6 +493,8 @@ def gen_case(rng, tier, flavor=None):
         add_dupcycle(rng, roots, defs)
     if flavor == "digits":
         add_digits(rng, roots, defs)
+    if flavor == "caserepeat":
+        add_caserepeat(rng, roots[0], defs)
     qs = all_dirs_queries(rng, roots, defs)
     return {"files": defs, "queries": qs, "flavor": flavor, "dirs": roots}
 
@@ -545,6 +548,29 @@ def add_dupcycle(rng, roots, defs, kind=None, sub=None, twin_body=None, link_in_
     if rng.random() < 0.5:
         # somebody who merely uses Node: ambiguous while both directories are looked up
         defs.append(mkfile(n, r0 + sub, "User", 1, 0, [["ref", rel("Node"), 1, 0, 0]]))
+
+
+def add_caserepeat(rng, root, defs, order=None, rel=None):
+    """one definition refers to the same type several times: with the exact spelling and with a spelling that differs by
+    letter case, in both orders (the verdict on a reference must not depend on what was resolved before)"""
+    d = root + [rng.choice(SUBS[:2]) for _ in range(rng.choice([0, 0, 1]))]
+    ns_name = ".".join([root[-1]] + d[len(root):])
+    i = len(defs)
+    defs.append(mkfile(i, d, "Item", 1, 0, [["plain", 8]]))
+    rel = (rng.random() < 0.5) if rel is None else rel
+    good = "Item" if rel else ns_name + ".Item"
+    bad = rng.choice(["item", "ITEM", "iTem"]) if rel else rng.choice([ns_name + ".item", ns_name.swapcase() + ".Item", ns_name + ".ITEM"])
+    order = order or rng.choice(["good-bad", "good-bad", "bad-good", "good-good-bad", "bad"])
+    seq = {"good-bad": [good, bad], "bad-good": [bad, good], "good-good-bad": [good, good, bad], "bad": [bad]}[order]
+    body = []
+    for nm in seq:
+        body.append(["ref", nm, 1, 0, rng.choice([0, 0, 2])])
+        if rng.random() < 0.3:
+            body.append(["plain", 8])
+    defs.append(mkfile(i + 1, d, "Twice", 1, 0, body))
+    if rng.random() < 0.5:
+        # the same through a dependency that has been read before with the right spelling
+        defs.append(mkfile(i + 2, d, "First", 1, 0, [["ref", good, 1, 0, 0], ["ref", "Twice", 1, 0, 0]]))
 
 
 def add_digits(rng, roots, defs, pair=None, both=None, where=None):
@@ -675,6 +701,12 @@ def corpus():
             for v in vers:
                 fs.append(mkfile(k, ns, "R%d" % k, 1, 0, [["ref", nm if k % 2 else "ns." + nm, v[0], v[1], 0]]))
                 k += 1
+        out.append(mk(fs))
+    # the same type referenced twice by one definition, exact spelling first and another letter case afterwards
+    import random as _random3
+    for order, rel in [("good-bad", True), ("good-bad", False), ("bad-good", True), ("good-good-bad", False)]:
+        fs = []
+        add_caserepeat(_random3.Random(3), ns, fs, order=order, rel=rel)
         out.append(mk(fs))
     # versions whose digits concatenate equally: 11.0 is referenced, 1.10 merely exists (and the other way round; alone)
     import random as _random2
